@@ -400,7 +400,7 @@ func runSchedule(sc ilScenario, sched []int) string {
 				trace = append(trace, "I.publish")
 			}
 		default:
-			model.VerifC06Flush(w.cache)
+			realFlush(w.cache)
 			trace = append(trace, "F.flush")
 		}
 		pc[p]++
